@@ -540,6 +540,7 @@ def execute(ctx, spec):
     hy = spec["hybrid36"]
     ctx.op("set_structure:%s%s" % ("stack" if spec["stack"] else "array", "+hybrid36" if hy else ""))
     raised = None
+    before = arr.copy()
     with warnings.catch_warnings(record=True) as wlist:
         warnings.simplefilter("always")
         try:
@@ -549,6 +550,18 @@ def execute(ctx, spec):
                 f.set_structure(arr, hybrid36=hy)
         except REFUSALS as e:
             raised = e
+    # writing must not change the caller's structure (it may be written again, e.g. with hybrid36=True)
+    ctx.oracle("input_untouched")
+    for cat in before.get_annotation_categories():
+        a, b = before.get_annotation(cat), arr.get_annotation(cat)
+        same = np.array_equal(a, b, equal_nan=True) if a.dtype.kind == "f" else np.array_equal(a, b)
+        if not same:
+            k = int(np.argmax(a != b))
+            ctx.fail("input_untouched", "set_structure changed annotation %r of the caller's structure: element %d was %r, is %r"
+                     % (cat, k, a[k].item() if hasattr(a[k], "item") else a[k], b[k].item() if hasattr(b[k], "item") else b[k]))
+    if not np.array_equal(before.coord, arr.coord, equal_nan=True) or (before.box is None) != (arr.box is None) \
+            or (before.box is not None and not np.array_equal(before.box, arr.box, equal_nan=True)) or before.bonds != arr.bonds:
+        ctx.fail("input_untouched", "set_structure changed coord/box/bonds of the caller's structure")
     warned = any("wrapped" in str(w.message) for w in wlist)
     if raised is not None:
         ctx.exc(raised)
